@@ -145,7 +145,15 @@ def run(ctx):
     cases = core.replay_cases(ctx) or make_cases(ctx, langs)
     # a share of the cases runs on parsers that were all constructed before any of them was used (state shared behind
     # the constructor would surface as another case's result)
-    results = core.run_cases_prebuilt(ctx, cases, lambda i: i % 5 == 0 and not ctx.replay and not cases[i].get("poison"), size=5)
+    # ... among them "twins": settings with EQUAL effective values but different explicit keys - an explicit
+    # DATE_ORDER='MDY' (the caller's order wins) next to no order at all (the locale's order wins), for the same locale
+    def twin(i):
+        c = cases[i]
+        return c["clause"] in ("explicit-x-locale", "locale-order") and ((c["explicit"] and c["order"] == "MDY") or (not c["explicit"] and c["plo"]))
+
+    def target(i):
+        return (0, repr(sorted(cases[i]["kw"].items())), cases[i]["explicit"]) if twin(i) else (1, "", False)
+    results = core.run_cases_prebuilt(ctx, cases, lambda i: not ctx.replay and not cases[i].get("poison") and (i % 5 == 0 or twin(i)), size=4, key=target)
     records = []
     nabs = 0
     for i, (c, r) in enumerate(zip(cases, results)):
